@@ -23,7 +23,7 @@ for i in ids:
         na.append({"property_id": i, "reason": "not claimed yet: the check for this property is still under construction (see DESIGN.md for the planned oracle)"})
 man = {
     "version": 1,
-    "setup_cmd": "cd /verif/harness && CARGO_NET_OFFLINE=true cargo build --release --offline",
+    "setup_cmd": "cd /verif/harness && CARGO_NET_OFFLINE=true cargo build --release --offline && cd /verif && python3 -c \"import engines,sys; sys.exit(0 if engines.build_binary(print) else 1)\"",
     "hooks": {
         "guard": "cargo feature `verif` of the rdest crate (off by default)",
         "enable": "the harness crate /verif/harness depends on rdest = { path = \"/repo\", features = [\"verif\"] }; the real-process layer builds /repo with the feature off",
@@ -33,6 +33,7 @@ man = {
     },
     "engines": [
         {"name": "vh", "path": "/verif/harness", "serves_properties": sorted(CHECKS), "kind_free_text": "Rust harness: workload generators, scripted peers over in-memory sockets on a paused tokio clock, reference models and trace monitors; run.py fans it out over 16 worker processes and merges what the monitors observed"},
+        {"name": "e2e", "path": "/verif/engines.py + /verif/e2e/cell.py", "serves_properties": sorted(c for c in CHECKS if CHECKS[c].get("engines")), "kind_free_text": "real-process layer: the unmodified rdest binary in a network namespace per run against a Python asyncio fake tracker and fake peers; file-system and process monitors; thorough tier repeats a subset under an AddressSanitizer build"},
     ],
     "checks": checks,
     "not_applicable": na,
